@@ -13,6 +13,7 @@ var checks = map[string][]HarnessSpec{
 		{Name: "HarnessC07Concurrent", Pkg: "store", Quick: map[string]int{"SCENARIO": 5}, Thorough: map[string]int{"SCENARIO": 5}, Schedule: true, Race: true, Preempt: 3},
 	},
 	"C14": {
+		{Name: "HarnessPipeline", Pkg: "bql", Quick: map[string]int{"PROP": 14, "K": 2}, Thorough: map[string]int{"PROP": 14, "K": 3}, MapOrder: true, MapOrderFilter: "bql/semantic", Note: "repeated ORDER BY keys; every map range inside bql/semantic explored in rotated and reversed order"},
 		{Name: "HarnessC14Procs", Pkg: "bql", Quick: map[string]int{"GOMAXPROCS": 1, "ROWS": 5}, Thorough: map[string]int{"GOMAXPROCS": 1, "ROWS": 6}, Schedule: true, Race: true, Preempt: 1, Note: "fan-out join over concrete data, one processor, every schedule with one preemption"},
 		{Name: "HarnessC14Procs", Pkg: "bql", Quick: map[string]int{"GOMAXPROCS": 2, "ROWS": 5}, Thorough: map[string]int{"GOMAXPROCS": 2, "ROWS": 6}, Schedule: true, Race: true, Preempt: 1, Note: "two processors"},
 		{Name: "HarnessC14Procs", Pkg: "bql", Thorough: map[string]int{"GOMAXPROCS": 4, "ROWS": 6}, Schedule: true, Race: true, Preempt: 1, OnlyThorough: true, Note: "four processors"},
